@@ -469,7 +469,19 @@ def _replay_inputs_unchanged():
     at.PlotData(res, outputs=res.model.pops[0].comps[0].name)
     after = dump()
     changed = [k for k in before if before[k] is not None and before[k] != after[k]]
-    pre = dict(project="udt", inputs=sorted(things))
+    # second run: a parameter set that carries a saved initialization (with the hash of the calibration factors it was made with)
+    try:
+        from atomica.parameters import Initialization
+
+        ps2 = P.parsets[0].copy()
+        ps2.initialization = Initialization.from_result(res, parset=P.parsets[0])
+        b2 = pickle.dumps(ps2)
+        P.run_sim(ps2, store_results=False)
+        if pickle.dumps(ps2) != b2:
+            changed.append("parset with a saved initialization")
+    except Exception as e:  # noqa
+        changed.append("parset with a saved initialization (run raised %s: %s)" % (type(e).__name__, e))
+    pre = dict(project="udt", inputs=sorted(things) + ["parset with a saved initialization"])
     return dict(verdict="violates" if changed else "holds", detail=("the caller's %s changed while a simulation was run and reported" % ", ".join(changed)) if changed else "all inputs pickle to the same bytes before and after the run", prestate=pre)
 
 
@@ -493,6 +505,9 @@ def _inputs_scan(mods, roots=_INPUT_ROOTS, only=None):
 
 def _c08_inputs(tier="quick", seed=0):
     out, scanned = _inputs_scan(("model", "project", "scenarios", "results", "plotting", "cascade"))
+    # the saved-initialization helpers of parameters.py are called from inside a run with the caller's parameter set
+    o2, s2 = _inputs_scan(("parameters",), roots={"parset", "framework", "res"}, only={"Initialization.hash_y_factors", "Initialization.apply", "Initialization.from_result"})
+    out, scanned = out + o2, scanned + s2
     out.append(dict(function="model, project, scenarios, results, plotting, cascade (all functions taking an input object)", name="input-taking-functions-scanned:%d" % scanned, kind="structural",
                     status="proved" if scanned > 30 else "refuted", seconds=0.0, backend="ast-analysis", note="functions with a parameter named %s" % ", ".join(sorted(_INPUT_ROOTS))))
     _attach(out, "writes-through-input", _replay_inputs_unchanged)
